@@ -109,6 +109,8 @@ class SolveSeam:
         self.residuals = []  # (entry index, |Ax-b|_inf)
         self.rel_residuals = []  # |Ax-b|_inf / |b|_inf
         self.rel2_residuals = []  # |Ax-b|_2 / |b|_2: the quantity pyamg and scipy's cg compare with their tolerance
+        self.abs2_residuals = []  # (|Ax-b|_2, |b|_2)
+        self.weight_spread = 1.0
         self.max_b = 0.0
         self.setups = 0
         self.reused = 0
@@ -125,6 +127,7 @@ class SolveSeam:
             seam.entries += 1
             seam._matrix_full = matrix
             seam.note_amplitude(matrix, rhs, previous_solution)
+            seam.note_conditioning(matrix)
             seam.maybe_raise("entry")
             if reuse_solver and hasattr(obj, "linear_solver"):
                 seam.reused += 1
@@ -193,6 +196,8 @@ class SolveSeam:
         self.entries, self.current = 0, -1
         self.fired, self.residuals, self.rel_residuals = [], [], []
         self.rel2_residuals = []
+        self.abs2_residuals = []
+        self.weight_spread = 1.0
         self.max_b = 0.0
         self.setups = self.reused = 0
         self.bookkeeping_calls = 0
@@ -219,6 +224,18 @@ class SolveSeam:
         except Exception:
             pass
 
+    def note_conditioning(self, matrix):
+        """Spread of the face weights (diagonal of the flux block) of the systems of this call: the library's absolute
+        regularisation puts weights of 1/eps on faces of flux-free cells."""
+        try:
+            nf = self.obj.grid.num_faces
+            d = np.abs(matrix.diagonal()[:nf])
+            d = d[np.isfinite(d) & (d > 0)]
+            if d.size:
+                self.weight_spread = max(getattr(self, "weight_spread", 1.0), float(d.max() / d.min()))
+        except Exception:
+            pass
+
     def maybe_raise(self, site):
         f = self.fault
         if f and f["site"] == site and f["occurrence"] == self.current and not self.fired:
@@ -236,7 +253,9 @@ class SolveSeam:
             nb = float(np.max(np.abs(b)))
             self.rel_residuals.append(r / nb if nb > 0 else (0.0 if r == 0 else float("inf")))
             n2 = float(np.linalg.norm(b))
-            self.rel2_residuals.append(float(np.linalg.norm(A @ x - b)) / n2 if n2 > 0 and np.all(np.isfinite(x)) else 0.0)
+            r2 = float(np.linalg.norm(A @ x - b)) if np.all(np.isfinite(x)) else 0.0
+            self.rel2_residuals.append(r2 / n2 if n2 > 0 else 0.0)
+            self.abs2_residuals.append((r2, n2))
             self.max_b = max(self.max_b, nb)
         except Exception:
             r = float("nan")
@@ -511,11 +530,20 @@ def check_result(cfg, rr: RunResult, out: Outcome, tag: str, step: int, fault=No
     if seam.amplitude * max(ref.face_area) > 1e3 * scale_m:
         out.counters["probe:iterate-blow-up(anderson)"] += 1
     out.extra["max_imbalance_over_scale"] = max(out.extra.get("max_imbalance_over_scale", 0.0), imb / scale_m)
-    if imb > tol_m and not stalled:
-        k3 = (cfg["method"] == "newton" and cfg["formulation"] == "full" and cfg["l1_mode"] == "constant_cell_projection"
-              and cfg["mobility_mode"] in ("CELL_BASED", "CELL_BASED_HARMONIC") and cfg.get("long"))
-        out.violate("C04.M", f"{cfg['formulation']}:{cfg['linear_solver']}:{where}" + (":newton-cell-projection-long-run" if k3 else ""), step, tag=tag, imbalance=imb, tolerance=tol_m,
-                    recorded_linear_residual=rmax, fault=fault, config=cfg)
+    coarse = (cfg["linear_solver"] != "direct"
+              and any(x == x and x > 1e-6 for x in seam.rel_residuals))
+    if coarse and not stalled:
+        # the configured precision of the iterative back-end (e.g. an absolute tolerance next to SI-sized right-hand
+        # sides) left a relative residual above 1e-6: 'linear-solver precision' is too coarse for a claim (DESIGN 8.20)
+        out.counters["probe:iterative-precision-coarse-relative-to-rhs"] += 1
+    if imb > tol_m and not stalled and not coarse:
+        # K3: direct solves of systems whose face weights spread over more than 12 orders of magnitude (1/eps weights
+        # from the absolute regularisation) leave residuals far above round-off; the imbalance is that residual
+        full_r = max([r for _, r in seam.residuals if r == r] + [0.0])
+        k3 = (cfg["linear_solver"] == "direct" and getattr(seam, "weight_spread", 1.0) >= 1e12
+              and imb <= 1e-9 * scale_m + 50.0 * nc * full_r)
+        out.violate("C04.M", f"{cfg['formulation']}:{cfg['linear_solver']}:{where}" + (":ill-conditioned-by-regularization" if k3 else ""), step, tag=tag, imbalance=imb, tolerance=tol_m,
+                    recorded_linear_residual=rmax, weight_spread=getattr(seam, "weight_spread", None), fault=fault, config=cfg)
 
     # ---- D: distance is the cost of exactly the returned flux
     own = float(obj.l1_dissipation(u))
@@ -559,7 +587,17 @@ def check_result(cfg, rr: RunResult, out: Outcome, tag: str, step: int, fault=No
     # an iterative inner solve that returned far from its own convergence criterion (iteration limit hit) is an inner step
     # that failed; the library neither notices nor flags it (K6)
     tol_own = iterative_tol(cfg)
-    unconv = [x for x in getattr(seam, "rel2_residuals", []) if x == x and x > 100.0 * tol_own] if cfg["linear_solver"] != "direct" else []
+    o_ = cfg.get("ls_options", {})
+    unconv = []
+    for r2, b2 in getattr(seam, "abs2_residuals", []):
+        if cfg["linear_solver"] == "amg":      # pyamg: |r| < tol * |b| (tol = the 'atol' option, default 1e-6)
+            lim = float(o_.get("atol", 1e-6)) * (b2 if b2 > 0 else 1.0)
+        elif cfg["linear_solver"] == "cg":     # scipy: |r| <= max(rtol * |b|, atol)
+            lim = max(float(o_.get("rtol", 1e-6) or 1e-6) * b2, float(o_.get("atol", 0.0)))
+        else:
+            break
+        if r2 == r2 and r2 > 100.0 * lim and b2 > 0:
+            unconv.append(r2 / b2)
     if unconv:
         out.counters["probe:inner-iterative-solve-unconverged"] += 1
         if conv and not reasons:
@@ -868,7 +906,9 @@ class C04Engine(Engine):
                 elif in_loop:
                     # the injected failure was handled, but a later step of the same call failed on its own with the
                     # last valid iterate (Bregman's final pressure solve is outside the handler) and no result came back
-                    out.violate("C04.R", f"organic-failure-after-handled-failure:{cfg['method'].split('-')[0]}", step,
+                    who_r = ("bregman:final-pressure-solve" if getattr(rr, "exc_site", "other") == "final-pressure-solve"
+                             else cfg["method"].split("-")[0])
+                    out.violate("C04.R", f"organic-failure-after-handled-failure:{who_r}", step,
                                 fault=f, config=cfg, escaped=rr.exc,
                                 note="the failure of a loop iteration was handled, but the call then raised on its own and returned no result")
                 else:
